@@ -2848,7 +2848,17 @@ BOOST_PP_REPEAT(BOOST_PP_ADD(BOOST_MSM_VISITOR_ARG_SIZE,1), MSM_VISITOR_ARGS_EXE
         // block immediate handling of events
         m_event_processing = true;
         // if the event is generating a direct entry/fork, set the current state(s) to the direct state(s)
-        direct_event_start_helper(this)(incomingEvent,fsm);
+        BOOST_TRY
+        {
+            direct_event_start_helper(this)(incomingEvent,fsm);
+        }
+        BOOST_CATCH (...)
+        {
+            // an entry behaviour threw: do not leave this fsm blocked for ever
+            m_event_processing = false;
+            BOOST_RETHROW
+        }
+        BOOST_CATCH_END
         // handle messages which were generated and blocked in the init calls
         m_event_processing = false;
         // look for deferred events waiting
